@@ -198,12 +198,16 @@ def gen_plan(j, rng):
                         d.pop("lat", None)
                 else:
                     op["net"] = [gen_net(rng, cfg["version"], inner=True) for _ in range(n - 1)] + [last]
+    if rng.random() < 0.2:
+        # an unrelated device (other address, id, key, protocol version) and its client live in the same process
+        cfg["bystander"] = {"version": rng.choice([2, 3]), "period": rng.choice([0.11, 0.3, 0.7, 1.3]),
+                            "state": to_dev_state(rand_state(rng))}
     return {"config": cfg, "ops": ops}
 
 
 def _plain(p):
     """The known-finding sub-workloads run exactly the recorded shape: no learned profile, no back pressure."""
-    for k in ("learn_caps", "caps_pages", "backpressure"):
+    for k in ("learn_caps", "caps_pages", "backpressure", "bystander"):
         p["config"].pop(k, None)
     return p
 
@@ -369,6 +373,9 @@ def run(plan):
                 await s.do(op)
             # idle so that late duplicates are queued before the next exchange starts
             await asyncio.sleep(op.get("idle_after", 0.5))
+        bad2 = await s.stop_bystander()
+        if bad2 and res.ok:
+            fail("an unrelated second device/client pair in the same process was affected", bad2)
 
     try:
         w.run(main)
